@@ -215,6 +215,9 @@ package sshfx
 
 //@ func (*Attributes).XXX_UnmarshalByFlags
 //@   property C08, C06
+//@   ensures a.Flags == flags
+// (C06: the decoded value announces exactly the flags it was decoded under, also when they are zero and the receiver is
+//  being reused)
 //@   update after call (*Buffer).ConsumeCount#1: ghost.xCount = ret
 //@   update after call (*Buffer).ConsumeCount#1: ghost.xLeft = len(buf.b) - buf.off
 //@   ensures flags & AttrExtended != 0 && 0 <= ghost.xCount && ghost.xCount <= 0x7fffffff && ghost.xCount * 8 <= ghost.xLeft ==> len(a.ExtendedAttributes) == ghost.xCount
